@@ -10,6 +10,7 @@ scales for the absolute floor (both sides clip sigma_s - sigma_c at zero).
 from hypothesis import strategies as st
 
 from ..runner import Violation
+from ..guards import unchanged
 from .. import formula_ast as fa
 from .. import neutron_c03 as ng
 from ..refcalc_neutron import OUTPUTS
@@ -83,8 +84,9 @@ def check_composite(ctx, v):
     ctx.case((str(desc),), nontrivial=nt, sample=desc, cls=cls)
     case = dict(v, kind="composite")
 
-    calc = nsf.neutron_composite_sld(mats, wavelength=arg)
-    got = calc(weights, density=rho)
+    with unchanged("c17", None, wavelength=arg, weights=weights):
+        calc = nsf.neutron_composite_sld(mats, wavelength=arg)
+        got = calc(weights, density=rho)
     if not (isinstance(got, tuple) and len(got) == 3):
         raise Violation("c17:result-form", "calculator returned %r" % (got,), case)
     if zero:
